@@ -256,6 +256,12 @@ func GenPayload(r *simrt.Rand, x *shapes.Rec) {
 	if r.Bool() {
 		x.MS = map[string]shapes.Line{"k1": mkLine("m"), "k2": mkLine("n")}
 	}
+	switch r.Intn(3) {
+	case 1:
+		x.AP = [2]*shapes.Inner{{N: 1, S: "p0", T: tm(3)}, nil}
+	case 2:
+		x.AP = [2]*shapes.Inner{{N: 2, S: "p0", T: tm(4)}, {N: 3, S: "p1", T: tm(5)}}
+	}
 	switch r.Intn(6) {
 	case 5:
 		// becomes a shapes.AnyBox value (a structure held by the interface) when passed to the database
